@@ -1556,7 +1556,11 @@ impl Melda {
             });
             let mut c_r: std::sync::MutexGuard<'_, HashMap<String, Map<String, Value>>> =
                 c.lock().unwrap();
-            let root = c_r.get(start).expect("root_object_not_found");
+            // The root may be recorded but deleted (e.g. after submitting a document whose root
+            // carries its own identifier): report it, do not abort
+            let root = c_r
+                .get(start)
+                .ok_or_else(|| anyhow!("root_object_not_found"))?;
             let root = Value::from(root.clone());
             let result = unflatten(&mut c_r, &root)
                 .unwrap()
